@@ -351,7 +351,8 @@ func TestProp(t *testing.T) {
 			"closed boxes share a point, box-box Intersection=common rectangle or nil, Copy, Empty; plus exhaustive enumeration of box pairs x third boxes over a " +
 			"4-5 value grid. Non-trivial = geometry with an empty member or nesting depth>=2; box pair that touches, is separated on exactly one axis, or " +
 			"involves an empty box. Distinct by case hash." +
-			" Round 9: histories in which a returned box is grown in place (Extend, field writes) before Bounds() is asked of the next empty geometry.",
+			" Round 9: histories in which a returned box is grown in place (Extend, field writes) before Bounds() is asked of the next empty geometry." +
+			" Round 11: one geometry in 30 is wrapped in collections nested 15-66 deep.",
 		Assumptions: []string{"NaN coordinates are outside the property (min/max of NaN unspecified)", "non-canonical inverted boxes (Max<Min with finite values) are not generated: their lattice meaning is not stated by the property"},
 		Gen:         gen,
 		Run:         run,
